@@ -117,13 +117,14 @@ fn convert_sequences(bytes: &[u8]) -> Result<Vec<Vec<String>>, String> {
     Ok(out)
 }
 
-pub fn subs(_tier: Tier) -> Vec<Sub> {
+pub fn subs(tier: Tier) -> Vec<Sub> {
     let n = NAMES.len() as u64;
-    let total = n + n * n + n * n * n;
+    let maxlen = tier.pick(3u32, 4u32);
+    let total: u64 = (1..=maxlen).map(|l| n.pow(l)).sum();
     vec![Sub::new(
-        "line-sequences-after-each-other",
+        &format!("line-sequences-after-each-other-len<={}", maxlen),
         total,
-        "every tuple of 1..=3 sequences over a pool of 9 (with and without DW_LNE_set_address, tombstoned to the end, tombstoned then re-addressed, valid then tombstoned, every register changed, empty, address 0) in one version 4 line program: what read::LineRows::next_row, ConvertLineProgram::read_row and ConvertLineProgram::read_sequence give for the whole program equals what each gives for the program without its last sequence followed by what it gives for the last sequence in a program of its own (an error of either part is the error of the whole)",
+        "every tuple of 1..=3 (thorough: 4) sequences over a pool of 9 (with and without DW_LNE_set_address, tombstoned to the end, tombstoned then re-addressed, valid then tombstoned, every register changed, empty, address 0) in one version 4 line program: what read::LineRows::next_row, ConvertLineProgram::read_row and ConvertLineProgram::read_sequence give for the whole program equals what each gives for the program without its last sequence followed by what it gives for the last sequence in a program of its own (an error of either part is the error of the whole)",
         move |ctx: &mut Ctx, i| {
             let mut ks = vec![];
             let mut r = i;
